@@ -152,3 +152,19 @@ Definition qcov (l : list pfx) (q : query) : bool :=
   | Q6z _ => false
   | QInvalid => false
   end.
+
+(** A configuration of ip_set plugins: a set has own entries (ips then files)
+    and references other sets, which may reference further sets. *)
+Inductive setdef := SetDef (own : list entry) (refs : list setdef).
+
+(** ip_set.go:NewIPSet applied bottom-up: the matcher of a set. *)
+Fixpoint build_set (srt : list pfx -> list pfx) (s : setdef) : list (list pfx) :=
+  match s with
+  | SetDef own refs => ipset_build srt own (map (build_set srt) refs)
+  end.
+
+(** Every entry loaded anywhere below a set. *)
+Fixpoint all_entries (s : setdef) : list entry :=
+  match s with
+  | SetDef own refs => own ++ flat_map all_entries refs
+  end.
